@@ -31,7 +31,7 @@ def impl_oracle(c):
         return kind, "%s: %s" % (c["op"], o["crash"][:160])
     if c["op"] == "file":
         return J.file_oracle(c)
-    if c["op"] in ("reuse", "fhist", "bigrt"):
+    if c["op"] in ("reuse", "fhist", "bigrt", "reread"):
         return J.usage_oracle(c)
     if c["op"] == "gort":
         r = o.get("res")
